@@ -34,49 +34,6 @@
 import LabreaModel.PickleLemmas
 namespace Labrea.Pickle
 
-/-! ### concrete graphs used as witnesses
-
-  `@dataset def f(a=Option('A'))` / `d = dataset(_f)` with one registered overload, reduced to the
-  attributes that matter.  Object 5 is the user function; 0 the Dataset (`__wrapped__` → 5);
-  1 its `Overloaded` (lock registered under its own id); 2 the lookup dict `{'one': <Option>}`;
-  3/4 `FunctionApplication` / `Value` holding the function; 6 the registered `Option`;
-  7 the `MemoryCache` with one warm entry (8 = its dict, 9 = the cached list). -/
-
-def exHeap : Heap := [
-  (0, ⟨.inst "Dataset" ["overloads", "cache", "__qualname__", "__wrapped__"],
-        [.ref 1, .ref 7, .sc (.str "f"), .ref 5]⟩),
-  (1, ⟨.inst "Overloaded" ["dispatch", "lookup", "default", "_lock"],
-        [.sc (.str "K"), .ref 2, .ref 3, .lock 1]⟩),
-  (2, ⟨.dict, [.sc (.str "one"), .ref 6]⟩),
-  (3, ⟨.inst "FunctionApplication" ["func"], [.ref 4]⟩),
-  (4, ⟨.inst "Value" ["value"], [.ref 5]⟩),
-  (5, ⟨.func "m.f", []⟩),
-  (6, ⟨.inst "Option" ["key"], [.sc (.str "C")]⟩),
-  (7, ⟨.inst "MemoryCache" ["_cache"], [.ref 8]⟩),
-  (8, ⟨.dict, [.sc (.str "[{\"A\": 1}]"), .ref 9]⟩),
-  (9, ⟨.list, [.sc (.str "f"), .sc (.int 1)]⟩)]
-
-/-- explicit form `d = dataset(f)`: the name `m.f` still denotes the function -/
-def nsExplicit : Namespace := nsOf [("m.f", 5), ("m.d", 0)]
-/-- decorator form `@dataset def f`: the name `m.f` now denotes the Dataset -/
-def nsDecorator : Namespace := nsOf [("m.f", 0)]
-def recvDefined : Defined := definedOf ["m.f", "m.d"]
-
-/-- what `loads(dumps(d))` is expected to build (ids = memo numbers, finished objects first) -/
-def exCopy : Heap := [
-  (3, ⟨.inst "Option" ["key"], [.sc (.str "C")]⟩),
-  (2, ⟨.dict, [.sc (.str "one"), .ref 3]⟩),
-  (6, ⟨.func "m.f", []⟩),
-  (5, ⟨.inst "Value" ["value"], [.ref 6]⟩),
-  (4, ⟨.inst "FunctionApplication" ["func"], [.ref 5]⟩),
-  (1, ⟨.inst "Overloaded" ["dispatch", "lookup", "default", "_lock"],
-        [.sc (.str "K"), .ref 2, .ref 4, .lock 1]⟩),
-  (9, ⟨.list, [.sc (.str "f"), .sc (.int 1)]⟩),
-  (8, ⟨.dict, [.sc (.str "[{\"A\": 1}]"), .ref 9]⟩),
-  (7, ⟨.inst "MemoryCache" ["_cache"], [.ref 8]⟩),
-  (0, ⟨.inst "Dataset" ["overloads", "cache", "__qualname__", "__wrapped__"],
-        [.ref 1, .ref 7, .sc (.str "f"), .ref 6]⟩)]
-
 /-! ### the round trip -/
 
 /-- **state_roundtrip.**  For every heap whose function references resolve by reference (and
@@ -95,15 +52,10 @@ theorem state_roundtrip (h : Heap) (ns : Namespace) (ns' : Defined) (r : Id)
 
 /-- non-vacuity: the explicit-form graph satisfies the hypotheses … -/
 example : Picklable exHeap nsExplicit 0 := picklableB_sound (by decide)
-example : ∀ n i, nsExplicit n = some i → recvDefined n = true := by
-  intro n i hn
-  by_cases c1 : n = "m.f"
-  · subst c1; decide
-  · by_cases c2 : n = "m.d"
-    · subst c2; decide
-    · have : nsExplicit n = none := by
-        simp [nsExplicit, nsOf, Ne.symm c1, Ne.symm c2]
-      rw [this] at hn; cases hn
+example : ∀ n i, nsExplicit n = some i → recvDefined n = true := exRecv
+example : ∃ p σ h' r', encode exHeap nsExplicit 0 = .ok p ∧ decode recvDefined p = .ok (h', r') ∧
+    Iso σ exHeap 0 h' r' :=
+  state_roundtrip exHeap nsExplicit recvDefined 0 (picklableB_sound (by decide)) exRecv
 /-- … and the conclusion is the expected concrete copy (sharing of the function object between
     `Value.value` and `__wrapped__` kept: both are `ref 6`; cache content carried along) -/
 example : roundtrip exHeap nsExplicit recvDefined 0 = .ok (exCopy, 0) := by decide +kernel
@@ -179,9 +131,7 @@ theorem overloads_preserved (h : Heap) (ns : Namespace) (ns' : Defined) (r : Id)
 example : IsOverloaded exHeap 1 ["dispatch", "lookup", "default", "_lock"]
     [.sc (.str "K"), .ref 2, .ref 3, .lock 1] 2 [.sc (.str "one"), .ref 6] :=
   ⟨by decide, ⟨1, by decide⟩, by decide, by decide⟩
-example : Reach exHeap 0 1 :=
-  Reach.step (o := ⟨.inst "Dataset" ["overloads", "cache", "__qualname__", "__wrapped__"],
-    [.ref 1, .ref 7, .sc (.str "f"), .ref 5]⟩) (Reach.refl 0) (by decide) (by decide)
+example : Reach exHeap 0 1 := exReachOv
 /-- concretely: the copy's table has the entry registered before pickling, and one more `register`
     (key `late`, value the copied Option) adds to it -/
 example : table exCopy 1 = some [(.sc (.str "one"), .ref 3)] := by decide
@@ -215,20 +165,22 @@ theorem decorator_form_unpicklable (h : Heap) (ns : Namespace) (r f d : Id) (o :
     same object as m.f` -/
 example : failsWith (.notSame "m.f") (encode exHeap nsDecorator 0) = true := by decide
 /-- the hypotheses of the theorem hold for it (function 5 is reachable through `overloads`) -/
-example : Reach exHeap 0 5 := by
-  have r1 : Reach exHeap 0 1 := Reach.step (o := ⟨.inst "Dataset"
-    ["overloads", "cache", "__qualname__", "__wrapped__"], [.ref 1, .ref 7, .sc (.str "f"), .ref 5]⟩)
-    (Reach.refl 0) (by decide) (by decide)
-  have r3 : Reach exHeap 0 3 := Reach.step (o := ⟨.inst "Overloaded"
-    ["dispatch", "lookup", "default", "_lock"], [.sc (.str "K"), .ref 2, .ref 3, .lock 1]⟩)
-    r1 (by decide) (by decide)
-  have r4 : Reach exHeap 0 4 := Reach.step (o := ⟨.inst "FunctionApplication" ["func"], [.ref 4]⟩)
-    r3 (by decide) (by decide)
-  exact Reach.step (o := ⟨.inst "Value" ["value"], [.ref 5]⟩) r4 (by decide) (by decide)
+example : Reach exHeap 0 5 := exReachFn
+example : ∀ p, encode exHeap nsDecorator 0 ≠ .ok p :=
+  decorator_form_unpicklable exHeap nsDecorator 0 5 0 ⟨.func "m.f", []⟩ "m.f" exReachFn
+    (by decide) (by decide) (by decide) (by decide)
 example : nsDecorator "m.f" = some 0 ∧ (0 : Id) ≠ 5 := by decide
 
-/-- **explicit_form_picklable**: with `d = dataset(f)` the very same graph pickles (and, above,
-    round-trips to `exCopy`) -/
+/-- **explicit_form_picklable.**  Conversely, when every function name still denotes the function
+    (the explicit form `d = dataset(f)` keeps `m.f` bound to `f`), encoding cannot fail. -/
+theorem explicit_form_picklable (h : Heap) (ns : Namespace) (r : Id) (wf : Picklable h ns r) :
+    ∃ p, encode h ns r = .ok p := by
+  obtain ⟨p, memo, e⟩ := encodeM_total wf
+  exact ⟨p, encode_of_encodeM e⟩
+
+/-- the very same graph with the explicit-form namespace pickles (and, above, round-trips to `exCopy`) -/
+example : ∃ p, encode exHeap nsExplicit 0 = .ok p :=
+  explicit_form_picklable exHeap nsExplicit 0 (picklableB_sound (by decide))
 example : (match encode exHeap nsExplicit 0 with | .ok _ => true | .error _ => false) = true := by
   decide
 
